@@ -617,7 +617,14 @@ func replayObligation(w *World, opt verifyOpts, o *Obligation) (note string, rep
 			head, herr = runReplayTest(headDir, rel, src, dir, "head")
 		}
 	}
-	rec := map[string]any{"function": fn.String(), "arguments": args, "test_source": src, "working_tree": work, "committed_HEAD": head}
+	// a difference only counts when the function is deterministic on this input
+	stable := true
+	if werr == nil && herr == nil && work != head {
+		if again, err := runReplayTest(opt.repo, rel, src, dir, "work2"); err != nil || again != work {
+			stable = false
+		}
+	}
+	rec := map[string]any{"function": fn.String(), "arguments": args, "test_source": src, "working_tree": work, "committed_HEAD": head, "deterministic_on_rerun": stable}
 	if werr != nil {
 		rec["working_tree_error"] = werr.Error()
 	}
@@ -630,7 +637,7 @@ func replayObligation(w *World, opt verifyOpts, o *Obligation) (note string, rep
 		return "replay: the test could not be run on the working tree: " + string(b), false
 	case strings.HasPrefix(o.Kind, "safety") && strings.Contains(work, "REPLAY-PANIC"):
 		return "failing input found: the real function panics on the model's input: " + string(b), true
-	case herr == nil && work != head:
+	case herr == nil && work != head && stable:
 		return "failing input found: on the model's input the working tree does not behave like the committed code for which this obligation is proved: " + string(b), true
 	}
 	return "replay: the real function was run on the model's input; no difference from the committed code observed: " + string(b), false
